@@ -218,12 +218,14 @@ def gen_cases(run):
     for rep in range(reps):
         for method in METHODS:
             for data in DATA:
-                L = r.choice([8, 10, 12, 16])
+                # real leaf models need a non-empty validation set per leaf (the proviso C07 spells out): keep every leaf
+                # at >= 5 samples before the refill (a node is split only above L, so leaves hold > L/2 >= 5), no forced splits
+                L = r.choice([10, 12, 16])
                 f = r.choice([0.0, 0.0, 0.1, 0.125])
                 if (1 - 2 * f) * L < 4:
                     f = 0.0
                 n = r.randint(2 * L + 1, 5 * L)
-                cases.append(dict(family='real-fits', L=L, n=n, f=f, nsplits=r.choice([None, None, 1, 2]), method=method,
+                cases.append(dict(family='real-fits', L=L, n=n, f=f, nsplits=None, method=method,
                                   data=data, d=r.randint(2, 5), dseed=r.randint(0, 10 ** 6), stub=False, iters=r.choice([0, 1]),
                                   refill=r.choice([4, 10, 30]), guard_s=90))
     # (C) float hypotheses
